@@ -18,7 +18,7 @@ def enc_list(items, f):
 
 
 def enc_inl(e) -> str:
-    n = type(e).__name__
+    n = {"CustomFootnoteDef": "FootnoteDef"}.get(type(e).__name__, type(e).__name__)
     if n == "RawText":
         return "0 " + enc_str(e.children)
     if n == "CodeSpan":
@@ -54,7 +54,7 @@ def enc_inls(l) -> str:
 
 
 def enc_blk(e) -> str:
-    n = type(e).__name__
+    n = {"CustomFootnoteDef": "FootnoteDef"}.get(type(e).__name__, type(e).__name__)
     if n == "Paragraph":
         ch = "1 " + enc_bool(e.checked) if hasattr(e, "checked") else "0"
         return "0 0 %s %s" % (ch, enc_inls(e.children))
